@@ -6,7 +6,7 @@ def run(ctx):
     quick = ctx.tier == "quick"
     vlib.mc(ctx, "MC_Helpers", "MC_Helpers_c04.cfg", timeout=1800)
     vlib.mc(ctx, "MC_Helpers", "MC_Helpers_c04idem.cfg", timeout=1800)  # idempotent mutators racing a teardown
-    helperlib.run(ctx, "C04", ["GenHelpers_C04.cfg", "GenHelpers_C04race.cfg", "GenHelpers_C04idem.cfg", "GenHelpers_C03.cfg"], helperlib.C04_WHATS, 800 if quick else 12000)
+    helperlib.run(ctx, "C04", ["GenHelpers_C04.cfg", "GenHelpers_C04race.cfg", "GenHelpers_C04idem.cfg", "GenHelpers_C04same.cfg", "GenHelpers_C03.cfg"], helperlib.C04_WHATS, 1000 if quick else 15000)
     ctx.assumptions += [
         "mutators are label tokens; lost / duplicated / misplaced updates are visible as token-set differences",
         "named deviation RecreateSameVersionABA (see DESIGN.md): reported under its own key",
